@@ -63,8 +63,13 @@ Definition filter_defs {A} (defs : list (string * A)) (names : list string) : li
   filter (fun d => mem (fst d) names) defs.
 
 (* ---- the two generators and the package ---- *)
-Record input_def (A : Type) := { i_name : string; i_deps : list string; i_enums : list string; i_body : A }.
+Record input_def (A : Type) := {
+  i_name : string; i_deps : list string; i_enums : list string; i_body : A;
+  i_needs : list string;          (* import items "module:name" the class body refers to *)
+  i_scalar_items : list string    (* import items contributed by its custom-scalar fields (type/serialize/parse) *)
+}.
 Arguments i_name {A}. Arguments i_deps {A}. Arguments i_enums {A}. Arguments i_body {A}.
+Arguments i_needs {A}. Arguments i_scalar_items {A}.
 
 Record pkg (A : Type) := {
   p_inputs : list (input_def A);          (* schema.type_map order *)
@@ -76,10 +81,11 @@ Record pkg (A : Type) := {
   p_custom : bool;                        (* enable_custom_operations *)
   p_builder_inputs : list string;         (* _get_custom_operations_arguments_types()[0] (fix c0f9ed8) *)
   p_builder_enums : list string;          (* _get_custom_operations_arguments_types()[1] *)
+  p_preamble : list string;               (* the fixed imports of input_types.py (typing, pydantic, base_model) *)
 }.
 Arguments p_inputs {A}. Arguments p_enums {A}. Arguments p_arg_inputs {A}. Arguments p_arg_enums {A}.
 Arguments p_res_enums {A}. Arguments p_frag_enums {A}. Arguments p_custom {A}.
-Arguments p_builder_inputs {A}. Arguments p_builder_enums {A}.
+Arguments p_builder_inputs {A}. Arguments p_builder_enums {A}. Arguments p_preamble {A}.
 
 (* types_to_include of _generate_input_types: the variables' input types, plus the argument input types
    of every field the operation-builder modules expose when custom operations are enabled *)
@@ -116,6 +122,31 @@ Definition used_enums {A} (p : pkg A) (retained : list (string * A)) : list stri
 Definition gen_enums {A} (p : pkg A) (all_enums : bool) (retained : list (string * A)) : list (string * A) :=
   if all_enums then p_enums p else filter_defs (p_enums p) (used_enums p retained).
 
+(* ---- imports of input_types.py ----
+   InputTypesGenerator.generate puts in front of the classes: the fixed preamble, `from .enums import <enums of
+   the RETAINED inputs>` and the imports of EVERY custom scalar used by ANY input (self._used_scalars is global,
+   pruning does not touch it); ast_to_str then lets autoflake drop the imports nothing refers to.
+   Quirk reproduced faithfully: when some input uses an enum but no retained one does, the enum import has no
+   names, the module text is not parseable for autoflake, nothing is removed (isort drops the empty line). *)
+Definition enum_item (e : string) : string := String.append ".enums:" e.
+Definition is_nil {X} (l : list X) : bool := match l with [] => true | _ => false end.
+
+Fixpoint needs_lookup {A} (ins : list (input_def A)) (n : string) : list string :=
+  match ins with
+  | [] => []
+  | d :: r => if String.eqb (i_name d) n then i_needs d else needs_lookup r n
+  end.
+
+Definition candidates {A} (p : pkg A) (retained : list (string * A)) : list string :=
+  (p_preamble p ++ map enum_item (input_used_enums p retained) ++ flat_map i_scalar_items (p_inputs p))%list.
+Definition needs_of {A} (p : pkg A) (retained : list (string * A)) : list string :=
+  flat_map (fun d => needs_lookup (p_inputs p) (fst d)) retained.
+Definition autoflake_gives_up {A} (p : pkg A) (retained : list (string * A)) : bool :=
+  existsb (fun d => negb (is_nil (i_enums d))) (p_inputs p) && is_nil (input_used_enums p retained).
+Definition module_imports {A} (p : pkg A) (retained : list (string * A)) : list string :=
+  if autoflake_gives_up p retained then candidates p retained
+  else filter (fun it => mem it (needs_of p retained)) (candidates p retained).
+
 (* the whole pruning pipeline: (retained input classes, retained enum classes) *)
 Definition generate {A} (p : pkg A) (all_inputs all_enums : bool)
   : option (list (string * A) * list (string * A)) :=
@@ -128,10 +159,11 @@ Local Open Scope string_scope.
 (* ---- sexp interface ----
    (deps ((k (v ...)) ...) t)                         -> (some (n ...)) | none
    (closure graph (root ...))                         -> (some (n ...)) | none
-   (generate ((name (dep ...) (enum ...) body) ...) ((ename body) ...)
+   (generate ((name (dep ...) (enum ...) body (need ...) (scalar-item ...)) ...) ((ename body) ...)
              (arg_inputs ...) (arg_enums ...) (res_enums ...) (frag_enums ...) all_inputs all_enums
-             custom (builder_inputs ...) (builder_enums ...))
-        -> (some (((name body) ...) ((ename body) ...) (used enum list)))  | none *)
+             custom (builder_inputs ...) (builder_enums ...) (preamble ...))
+        -> (some (((name body) ...) ((ename body) ...) (used enum list) (import items of input_types.py)
+                  autoflake-gives-up))  | none *)
 Definition dStrs (e : sexp) : option (list string) := dList dStr e.
 
 Definition dGraph (e : sexp) : option graph :=
@@ -141,10 +173,11 @@ Definition dGraph (e : sexp) : option graph :=
 
 Definition dInput (e : sexp) : option (input_def string) :=
   match e with
-  | L [A n; ds; es; A body] =>
-      match dStrs ds, dStrs es with
-      | Some d, Some en => Some {| i_name := n; i_deps := d; i_enums := en; i_body := body |}
-      | _, _ => None end
+  | L [A n; ds; es; A body; nd; sc] =>
+      match dStrs ds, dStrs es, dStrs nd, dStrs sc with
+      | Some d, Some en, Some x, Some y =>
+          Some {| i_name := n; i_deps := d; i_enums := en; i_body := body; i_needs := x; i_scalar_items := y |}
+      | _, _, _, _ => None end
   | _ => None
   end.
 
@@ -164,17 +197,18 @@ Definition run_prune (e : sexp) : sexp :=
       match dGraph g, dStrs rs with
       | Some gr, Some r => sOpt sStrs (closure_opt gr r)
       | _, _ => sErr "closure args" end
-  | L [A "generate"; ins; ens; ai; ae; re; fe; fi; fen; cu; bi; be] =>
+  | L [A "generate"; ins; ens; ai; ae; re; fe; fi; fen; cu; bi; be; pre] =>
       match dList dInput ins, dList dEnumDef ens, dStrs ai, dStrs ae, dStrs re, dStrs fe, dB fi, dB fen,
-            dB cu, dStrs bi, dStrs be with
-      | Some i, Some en, Some a1, Some a2, Some r, Some f, Some b1, Some b2, Some c, Some x1, Some x2 =>
+            dB cu, dStrs bi, dStrs be, dStrs pre with
+      | Some i, Some en, Some a1, Some a2, Some r, Some f, Some b1, Some b2, Some c, Some x1, Some x2, Some pr =>
           let p := {| p_inputs := i; p_enums := en; p_arg_inputs := a1; p_arg_enums := a2;
                       p_res_enums := r; p_frag_enums := f; p_custom := c;
-                      p_builder_inputs := x1; p_builder_enums := x2 |} in
+                      p_builder_inputs := x1; p_builder_enums := x2; p_preamble := pr |} in
           match generate p b1 b2 with
-          | Some (ri, rn) => L [A "some"; L [sDefs ri; sDefs rn; sStrs (used_enums p ri)]]
+          | Some (ri, rn) => L [A "some"; L [sDefs ri; sDefs rn; sStrs (used_enums p ri);
+                                             sStrs (module_imports p ri); sB (autoflake_gives_up p ri)]]
           | None => A "none"
           end
-      | _, _, _, _, _, _, _, _, _, _, _ => sErr "generate args" end
+      | _, _, _, _, _, _, _, _, _, _, _, _ => sErr "generate args" end
   | _ => sErr "prune: bad command"
   end.
